@@ -49,10 +49,13 @@ RULE = ('cases = sink set-ups (0-2 in-memory sinks through the public Sink API w
         'active threads AND (a truncation, a filter drop, or a file sink holding records); distinct = distinct op text')
 LEVEL_TEXT = ('Lean 4 theorems over a model of the logging path: truncation loop (all lengths, all maxima), filter table, contiguity/per-thread order/'
               'exactly-once of dispatch under the global lock for every schedule (with the unlocked counterexample), re-framing of the pipe stream for '
-              'EVERY chunking and every header layout, rendering, file rollover with whole records and flush on disable; tied to the real code on every '
-              'run by a trace acceptor over multi-threaded runs against in-memory sinks and a real AsyncFileSink directory')
+              'EVERY chunking and every header layout, rendering of every sink (file, sync/async stdout, syslog; colour on/off; tables regenerated from the source), '
+              'file rollover with whole records, flush on disable, no loss/duplication/split under every sequence of short writes; tied to the real code on every '
+              'run by a trace acceptor over multi-threaded runs against in-memory sinks, a real AsyncFileSink directory, captured fd 1 and captured syslog(); '
+              'ThreadSanitizer pass in the thorough tier')
 LEVEL_NOTE = ('trusted: Lean kernel, hand-written model + trace-acceptor tie (coverage bounded by the generator, measured), async pipe by contract (C10), '
-              'std::mutex atomicity, complete write(2); C++ data-race freedom is not proved; timestamps and colour codes not modelled')
+              'std::mutex atomicity; C++ data-race freedom is searched with ThreadSanitizer (thorough), not proved; timestamps not modelled; '
+              'enableColor() concurrent with logging is outside the tie')
 TECHNIQUE = 'Lean 4 proofs (induction over schedules, chunkings, batches) over an executable model + trace-acceptor correspondence with the real sinks'
 DESIGN_REF = 'DESIGN.md §6 C09'
 
@@ -110,7 +113,7 @@ def gen_case(rng, tier, conc=0.15):
         if rng.random() < 0.3:
             ops.append('color %d 1' % k)
     if files and rng.random() < 0.25:
-        ops.append('wfault ' + ' '.join(str(rng.choice([0, 1, 2, 5, 30, 71, 72, 73, 100, 2000])) for _ in range(rng.choice([1, 3, 8, 20]))))
+        ops.append('wfault ' + ' '.join(str(rng.choice([0, 1, 2, 5, 30, 71, 72, 73, 100, 2000, 99999])) for _ in range(rng.choice([1, 3, 8, 20]))))
 
     def conc_acts():
         acts = []
@@ -192,7 +195,7 @@ def gen(rng, tier):
     yield ['sink aout 7 1 2 1', 'color 1 1', 'run 4 ' + ' '.join('%d:%d:a:f:x.cpp:%d:p:%d:%d' % (i % 4, i % 8, i, i, i) for i in range(24)), 'off 1',
            'color 1 0', 'on 1', 'run 2 0:2:b:f:-:1:s:9:1 1:6:b:-:x.cpp:2:p:0:2', 'off 1']
     # directed: short writes on the log file (1 byte, inside the first record, exactly one record, one byte less than asked)
-    yield ['sink file 100000 10240 2 20 100', 'wfault 1 1 30 71 0 2000 5',
+    yield ['sink file 100000 10240 2 20 100', 'wfault 1 99999 1 30 71 0 2000 99999 5',
            'run 2 ' + ' '.join('%d:5:a:f:x.cpp:%d:p:%d:%d' % (i % 2, i, 20 + i, i) for i in range(12)), 'off 1', 'on 1',
            'run 1 0:5:a:f:x.cpp:1:p:40:1 0:5:a:f:x.cpp:2:p:41:2', 'off 1']
     yield ['sink file 60 100 1 2 1', 'wfault 5 5 5 5 5 5 5 5', 'run 3 ' + ' '.join('%d:4:b:run:y.cpp:%d:s:%d:%d' % (i % 3, i, 3 * i, i) for i in range(15)), 'off 1']
